@@ -369,19 +369,25 @@ const OWS: [&str; 5] = ["", " ", "\t", "  ", " \t"];
 const TCHARS: &[u8] = b"abcdefghijklmnopqrstuvwxyzABCDEFGHIJKLMNOPQRSTUVWXYZ0123456789!#$%&'*+-.^_`|~";
 const LANG_CODES: [&str; 14] = ["en", "fr", "de", "es", "zh", "ja", "pt", "ru", "it", "nl", "xx", "tlh", "q", "*"];
 
+/// header-name vocabulary of the generators: the p0f lists (frozen here, independent of the crate's
+/// own copies) plus a few ordinary headers
+const REQ_NAMES: [&str; 27] = [
+    "Cookie", "Referer", "Origin", "Range", "If-Modified-Since", "If-None-Match", "Via", "X-Forwarded-For", "Authorization",
+    "Proxy-Authorization", "Cache-Control", "Host", "User-Agent", "Connection", "Accept", "Accept-Encoding", "Accept-Language",
+    "Accept-Charset", "Keep-Alive", "Content-Length", "Transfer-Encoding", "X-Custom", "DNT", "Upgrade-Insecure-Requests",
+    "Content-Type", "Pragma", "TE",
+];
+const RES_NAMES: [&str; 27] = [
+    "Set-Cookie", "Last-Modified", "ETag", "Content-Length", "Content-Disposition", "Cache-Control", "Expires", "Pragma",
+    "Location", "Refresh", "Content-Range", "Vary", "Date", "Content-Type", "Server", "Connection", "Keep-Alive", "Accept-Ranges",
+    "Transfer-Encoding", "X-Powered-By", "Via", "Age", "Content-Encoding", "Cookie", "Referer", "Strict-Transport-Security",
+    "X-Frame-Options",
+];
 fn req_names() -> Vec<&'static str> {
-    let mut v = huginn_net_db::http::request_optional_headers();
-    v.extend(huginn_net_db::http::request_skip_value_headers());
-    v.extend(huginn_net_db::http::request_common_headers());
-    v.extend(["Content-Length", "Transfer-Encoding", "X-Custom", "DNT", "Upgrade-Insecure-Requests", "Content-Type"]);
-    v
+    REQ_NAMES.to_vec()
 }
 fn res_names() -> Vec<&'static str> {
-    let mut v = huginn_net_db::http::response_optional_headers();
-    v.extend(huginn_net_db::http::response_skip_value_headers());
-    v.extend(huginn_net_db::http::response_common_headers());
-    v.extend(["Transfer-Encoding", "X-Powered-By", "Via", "Age", "Content-Encoding", "Cookie", "Referer"]);
-    v
+    RES_NAMES.to_vec()
 }
 
 fn case_variant(r: &mut Rng, s: &str) -> Vec<u8> {
